@@ -3,15 +3,24 @@ import Rare.Proofs.C19Complete
 import Rare.Proofs.C19Fuel
 import Rare.Proofs.C19Lit
 import Rare.Proofs.C19Tok
+import Rare.Proofs.C19F64b
 import Rare.Gen.C19
 /-!
 # C19 — math formulas follow the documented precedence; constants equal bound variables
 
 Property theorems about the model of `pkg/expressions/stdmath` (`Rare/Model/C19.lean`, mirrors
 tokenizer.go / parser.go / ops.go / simplify.go of the repaired code).  They hold for every
-arithmetic `A : Arith α` (float64 in the real code): nothing below depends on how `+`, `sin`, …
-compute, so the IEEE evaluation itself is outside these theorems (it is covered by the
-correspondence run, bit for bit where IEEE-754 makes the result unique).
+arithmetic `A : Arith α` (float64 in the real code): nothing in the first part depends on how `+`,
+`sin`, … compute – in particular no algebraic law (associativity, distributivity, `x - x = 0` …)
+is assumed anywhere, which floats would not satisfy; the simplifier is proved invisible only
+because it evaluates constant sub-formulas *with the same operations* as the run-time evaluation.
+
+The second part (`*_f64`, `integer_formulas_exact`, `comparison_total`, `nan_*` …) instantiates the
+arithmetic with IEEE-754 binary64: `IEEE.arith L` of `Rare/Model/C19F64.lean`, built on the
+kernel-checkable software model `Rare.F64` (bit patterns, exact rationals, one rounding), for every
+behaviour `L` of the libm-backed functions (`sin`, `log`, …, `math.Pow` with a fractional exponent),
+which stay a parameter.  The driver evaluates with the same operations (`IEEE.arithT`, sound by
+`taint_sound`) and is compared bit for bit with the Go code.
 
 `compile A s = .ok (t, e)`: `e` is the expression the Go code builds (with compile-time
 simplification), `t` the ghost parse tree.  Quantifiers: every formula text `s` (byte string),
@@ -394,5 +403,250 @@ example : parseStr (ascii "2(x)^2") =
       (Tree.explicit (.bin true [42] (.lit [50]) (.bin false [94] (.grp [120] (.lit [120])) (.lit [50])))).flatten ∧
     evalStr (ascii "2(x)^2") 3 = some (some 18) ∧ evalStr (ascii "2*(x)^2") 3 = some (some 18) := by
   decide +kernel
+
+/-! ## The IEEE-754 binary64 instance (`Rare/Model/C19F64.lean`) -/
+
+section ieee
+open IEEE Rare.F64
+
+/-- **Formula value, in IEEE-754 binary64.**  For every formula text, every behaviour `L` of the
+    libm-backed functions and every binding of the variables to float64 values: the program the Go
+    code builds (precedence climbing, constant sub-formulas folded at compile time) evaluates, in
+    binary64 arithmetic, to the binary64 value of the parse tree of the text – which is the unique
+    parse under the common order of operations (table regenerated from `/repo`).  The abstract
+    `formula_value` instantiates directly: its proof uses no algebraic law of the arithmetic. -/
+theorem formula_value_f64 (L : Libm) (s : Bytes) (t : Tree) (e : Expr F64)
+    (h : compile (arith L) s = .ok (t, e)) (b : Binding F64) :
+    tok s = some t.flatten ∧ WellPrec Gen.C19.orderOfOps t ∧ Deep tok t ∧
+    e.eval (arith L) b = t.eval (arith L) (classify (arith L)) b :=
+  let p := parse_wellprec (arith L) s t e h
+  ⟨p.1, p.2.1, p.2.2.1, formula_value (arith L) s t e h b⟩
+
+/-- Value of a formula in the IEEE instance under "every variable = the pattern `x`"
+    (`none` = compile error), for the examples. -/
+def evalF64 (s : Bytes) (x : Nat) : Option Nat :=
+  match compile (arith libm0) s with
+  | .ok (_, e) => some (e.eval (arith libm0) ⟨fun _ => ofBits (UInt64.ofNat x), fun _ => ofBits (UInt64.ofNat x)⟩).bits
+  | .error _ => none
+
+/-- `0.1+0.2` is `0.30000000000000004` (0x3FD3333333333334), not `0.3` (0x3FD3333333333333);
+    `1e308*10` overflows to +Inf; `2^0.5` is the correctly rounded `sqrt 2`; `7 % 0` is NaN. -/
+example : evalF64 (ascii "0.1+0.2") 0 = some 0x3FD3333333333334 ∧ evalF64 (ascii "0.3") 0 = some 0x3FD3333333333333 ∧
+    evalF64 (ascii "1e308*10") 0 = some 0x7FF0000000000000 ∧ evalF64 (ascii "2^0.5") 0 = some 0x3FF6A09E667F3BCD ∧
+    evalF64 (ascii "7 % 0") 0 = some F64.nan.bits ∧ evalF64 (ascii "3^4 + x/4") 0x4000000000000000 = some 0x4054600000000000 := by
+  decide +kernel
+
+/-- **Constants equal bound variables, in binary64.**  Replacing numeric constants of a compiled
+    formula by variables bound to the same binary64 values (or back) gives a formula that compiles to
+    the substituted parse and has bit for bit the same value – although other sub-formulas were
+    folded at compile time.  (Instance of `simplify_invisible`.) -/
+theorem constants_equal_variables_f64 (L : Libm) (s s' : Bytes) (t t' : Tree) (e : Expr F64) (b b' : Binding F64)
+    (hc : compile (arith L) s = .ok (t, e)) (hs : LitSubst (arith L) b b' t t')
+    (htok : tok s' = some t'.flatten) (hd : Deep tok t') :
+    ∃ e', compile (arith L) s' = .ok (t', e') ∧ e'.eval (arith L) b' = e.eval (arith L) b :=
+  simplify_invisible (arith L) s s' t t' e b b' hc hs htok hd
+
+/-- not vacuous, and no rounding slips in: `x + 0.1 + 0.2` at x = 1e16 folds nothing (left to right:
+    1e16 absorbs both), `x + (0.1+0.2)` folds the group at compile time – each equals its own
+    variable form `x + a + b` / `x + (a + b)` with a = 0.1, b = 0.2 bound at run time. -/
+example :
+    let b : Binding F64 := ⟨fun _ => zeroP, fun k =>
+      if k = [120] then ofBits 0x4341C37937E08000 else if k = [97] then ofBits 0x3FB999999999999A else ofBits 0x3FC999999999999A⟩
+    (match compile (arith libm0) (ascii "x + 0.1 + 0.2"), compile (arith libm0) (ascii "x + a + b"),
+           compile (arith libm0) (ascii "x + (0.1+0.2)"), compile (arith libm0) (ascii "x + (a + b)") with
+     | .ok (_, e1), .ok (_, e2), .ok (_, e3), .ok (_, e4) =>
+       decide (e1.eval (arith libm0) b = e2.eval (arith libm0) b) && decide (e3.eval (arith libm0) b = e4.eval (arith libm0) b) &&
+       decide ((e1.eval (arith libm0) b).bits = 0x4341C37937E08000) && decide ((e3.eval (arith libm0) b).bits = 0x4341C37937E08000)
+     | _, _, _, _ => false) = true := by
+  decide +kernel
+
+/-- **No formula and no binding crashes, in binary64.**  Compilation answers a parse or a Go error
+    value (never a panic, never a non-return); evaluation is a total function; and the integer
+    operators, which would panic in Go on a zero divisor / negative shift count, are guarded as in
+    the repaired code: `%` with `int64(right) = 0` and `<<`, `>>` with `int64(right) < 0` give NaN –
+    for EVERY float64 operand, NaN, ±Inf and values beyond int64 included (`int64(x)` is then
+    MinInt64, as compiled for amd64). -/
+theorem no_panic_f64 (L : Libm) :
+    (∀ s err m, compile (arith L) s = .error err → err ≠ .panic m) ∧
+    (∀ s, compile (arith L) s ≠ .error .fuel) ∧
+    (∀ a b : F64, toInt64 b = 0 → (arith L).bin [37] a b = F64.nan) ∧
+    (∀ a b : F64, toInt64 b ≠ 0 → (arith L).bin [37] a b = ofInt (Int.tmod (toInt64 a) (toInt64 b))) ∧
+    (∀ a b : F64, toInt64 b < 0 → (arith L).bin [60, 60] a b = F64.nan ∧ (arith L).bin [62, 62] a b = F64.nan) :=
+  ⟨fun s err m h => eval_no_panic (arith L) s err h m, fun s => compile_returns (arith L) s,
+   fun a b h => by rw [bin_mod]; exact mod_zero h,
+   fun a b h => by rw [bin_mod]; exact mod_nonzero h,
+   fun a b h => ⟨by rw [bin_shl]; exact shl_neg h, by rw [bin_shr]; exact shr_neg h⟩⟩
+
+/-- `5 % 0`, `5 % 0.5` (0.5 truncates to 0), `5 % NaN`?  No: `int64(NaN)` is MinInt64 ≠ 0, so `5 % NaN = 5`
+    (amd64); `1 << -1` and `1 >> -0.5`… the latter truncates to 0 and shifts by nothing. -/
+example : toInt64 (zero true) = 0 ∧ toInt64 half = 0 ∧ toInt64 F64.nan = minInt64 ∧
+    evalF64 (ascii "5 % x") 0x3FE0000000000000 = some F64.nan.bits ∧
+    evalF64 (ascii "5 % x") 0x7FF8000000000001 = some (ofInt 5).bits ∧
+    evalF64 (ascii "1 << x") 0xBFF0000000000000 = some F64.nan.bits ∧
+    evalF64 (ascii "1 >> x") 0xBFE0000000000000 = some one.bits := by
+  decide +kernel
+
+/-- **Integer formulas are exact.**  Take a compiled formula whose parse tree has an *integer
+    meaning* `n` (`Tree.intEval`, `Spec/C19F64.lean`): leaves are integer literals (decimal, `0x`,
+    `0b`, `0o`, read by the integer parser) or variables of an integer binding `ib`, operators are
+    `+ - *`, unary `-`, the comparisons and parentheses, and every leaf and every intermediate result
+    of exact integer arithmetic stays within ±2^53.  Then under any float binding that carries those
+    integers the binary64 value of the compiled program is exactly `n` – no rounding occurred
+    anywhere, compile-time folding included. -/
+theorem integer_formulas_exact (L : Libm) (s : Bytes) (t : Tree) (e : Expr F64)
+    (h : compile (arith L) s = .ok (t, e)) (ib : Binding Int) (b : Binding F64) (hb : IntBinding ib b)
+    (n : Int) (hn : Tree.intEval ib t = some n) :
+    (e.eval (arith L) b).toRat? = some (n : Rat) := by
+  rw [formula_value (arith L) s t e h b]
+  exact intEval_sound L hb t n hn
+
+/-- …and such a result is printed by `{! …}` as that integer (`FormatFloat(v,'f',-1,64)` =
+    `strconv.Itoa(n)`), unless it is zero (a zero may be `-0`, printed `-0`: `{! 0 * -1}`). -/
+theorem integer_formula_renders (L : Libm) (s : Bytes) (t : Tree) (e : Expr F64)
+    (h : compile (arith L) s = .ok (t, e)) (ib : Binding Int) (b : Binding F64) (hb : IntBinding ib b)
+    (n : Int) (hn : Tree.intEval ib t = some n) (h0 : n ≠ 0) (hr : n.natAbs ≤ 9007199254740992) :
+    render (e.eval (arith L) b) = itoa n :=
+  render_int (integer_formulas_exact L s t e h ib b hb n hn) h0 hr
+
+/-- Every integer binding has a float binding that carries it. -/
+theorem intBinding_ofInt (ib : Binding Int) :
+    IntBinding ib ⟨fun i => ofInt (ib.getMatch i), fun k => ofInt (ib.getKey k)⟩ :=
+  ⟨fun _ h => toRat?_ofInt h, fun _ h => toRat?_ofInt h⟩
+
+/-- not vacuous: `2*x+0x10-(y) < 3*(9007199254740992-1)` with x = 3, y = -5 has the integer meaning 1
+    (27 < 27021597764222973 … which is beyond 2^53, so THAT formula has no integer meaning), while
+    `(2*x+0x10-(y))*1000000 == [1]` with [1] = 27000000 means 1 and evaluates to 1.0; `0*-1` means 0
+    and evaluates to -0 (rendered `-0`). -/
+example :
+    let ib : Binding Int := ⟨fun _ => 27000000, fun k => if k = [120] then 3 else -5⟩
+    let b : Binding F64 := ⟨fun i => ofInt (ib.getMatch i), fun k => ofInt (ib.getKey k)⟩
+    (match compile (arith libm0) (ascii "(2*x+0x10-(y))*1000000 == [1]"),
+           compile (arith libm0) (ascii "2*x+0x10-(y) < 3*(9007199254740992-1)"),
+           compile (arith libm0) (ascii "2*x+0b11*-y"), compile (arith libm0) (ascii "0*-1") with
+     | .ok (t1, e1), .ok (t2, _), .ok (t3, e3), .ok (t4, e4) =>
+       decide (Tree.intEval ib t1 = some 1) && decide (e1.eval (arith libm0) b = one) &&
+       decide (Tree.intEval ib t2 = none) &&
+       decide (Tree.intEval ib t3 = some 21) && decide (render (e3.eval (arith libm0) b) = ascii "21") &&
+       decide (Tree.intEval ib t4 = some 0) && decide (render (e4.eval (arith libm0) b) = ascii "-0")
+     | _, _, _, _ => false) = true := by
+  decide +kernel
+
+/-- **Comparisons and boolean operators answer 0 or 1** – for all operands, NaN and ±Inf included. -/
+theorem comparison_total (L : Libm) (op : Bytes)
+    (hop : op ∈ [[60], [60, 61], [62], [62, 61], [61, 61], [38, 38], [124, 124]]) (a b : F64) :
+    ((arith L).bin op a b = one ∨ (arith L).bin op a b = zeroP) ∧
+    ((arith L).un [33] a = one ∨ (arith L).un [33] a = zeroP) := by
+  refine ⟨?_, by rw [un_not]; exact cond_cases _⟩
+  simp only [List.mem_cons, List.mem_nil_iff, or_false] at hop
+  rcases hop with rfl | rfl | rfl | rfl | rfl | rfl | rfl
+  · rw [bin_lt]; exact cond_cases _
+  · rw [bin_le]; exact cond_cases _
+  · rw [bin_gt]; exact cond_cases _
+  · rw [bin_ge]; exact cond_cases _
+  · rw [bin_eq]; exact cond_cases _
+  · rw [bin_andand]; exact cond_cases _
+  · rw [bin_oror]; exact cond_cases _
+
+/-- **The comparisons are the order of the exact values**: on finite operands `<`, `<=`, `==` answer 1
+    exactly when the real numbers the two floats denote compare that way (`-0 == 0` included). -/
+theorem comparison_is_value_order (L : Libm) (a b : F64) (ha : a.isFinite = true) (hb : b.isFinite = true) :
+    ((arith L).bin [60] a b = one ↔ a.toRat < b.toRat) ∧
+    ((arith L).bin [60, 61] a b = one ↔ a.toRat ≤ b.toRat) ∧
+    ((arith L).bin [61, 61] a b = one ↔ a.toRat = b.toRat) := by
+  have c1 : ∀ c : Bool, IEEE.cond c = one ↔ c = true := by
+    intro c; cases c
+    · exact ⟨fun h => absurd h (by decide), fun h => by cases h⟩
+    · exact ⟨fun _ => rfl, fun _ => rfl⟩
+  refine ⟨?_, ?_, ?_⟩
+  · rw [bin_lt, c1]; exact lt_iff_toRat_lt ha hb
+  · rw [bin_le, c1]; exact le_iff_toRat_le ha hb
+  · rw [bin_eq, c1, eq_as_le, Bool.and_eq_true, le_iff_toRat_le ha hb, le_iff_toRat_le hb ha]
+    constructor
+    · intro ⟨h1, h2⟩; exact Rat.le_antisymm h1 h2
+    · intro h; rw [h]; exact ⟨Rat.le_refl, Rat.le_refl⟩
+
+/-- **NaN propagation.**  A NaN operand makes `+ - * /` NaN and every comparison 0; `abs`, `sqrt`,
+    `floor`, `ceil`, `round` and unary `-` of NaN are NaN.  But NaN is *truthy* (`truthy(v)` is
+    `v != 0.0`): `NaN && 1` is 1, `NaN || 0` is 1 and `!NaN` is 0 – the code's behaviour, mirrored. -/
+theorem nan_propagation (L : Libm) (a b : F64) (h : a.isNaN = true ∨ b.isNaN = true) :
+    (arith L).bin [43] a b = F64.nan ∧ (arith L).bin [45] a b = F64.nan ∧ (arith L).bin [42] a b = F64.nan ∧
+    (arith L).bin [47] a b = F64.nan ∧
+    (arith L).bin [60] a b = zeroP ∧ (arith L).bin [60, 61] a b = zeroP ∧ (arith L).bin [62] a b = zeroP ∧
+    (arith L).bin [62, 61] a b = zeroP ∧ (arith L).bin [61, 61] a b = zeroP := by
+  have h' : b.isNaN = true ∨ a.isNaN = true := h.symm
+  refine ⟨?_, ?_, ?_, ?_, ?_, ?_, ?_, ?_, ?_⟩
+  · rw [bin_add]; exact add_nan h
+  · rw [bin_sub]; exact sub_nan h
+  · rw [bin_mul]; exact mul_nan h
+  · rw [bin_div]; exact div_nan h
+  · rw [bin_lt, lt_nan h]; rfl
+  · rw [bin_le, le_nan h]; rfl
+  · rw [bin_gt, lt_nan h']; rfl
+  · rw [bin_ge, le_nan h']; rfl
+  · rw [bin_eq, eq_nan h]; rfl
+
+theorem nan_unary (L : Libm) (a : F64) (h : a.isNaN = true) :
+    ((arith L).un [45] a).isNaN = true ∧ ((arith L).un [97, 98, 115] a).isNaN = true ∧
+    (arith L).un [115, 113, 114, 116] a = F64.nan ∧ (arith L).un [102, 108, 111, 111, 114] a = F64.nan ∧
+    (arith L).un [99, 101, 105, 108] a = F64.nan ∧ (arith L).un [114, 111, 117, 110, 100] a = F64.nan ∧
+    (arith L).un [33] a = zeroP ∧
+    (∀ b, (arith L).bin [38, 38] a b = (arith L).un [33] ((arith L).un [33] b)) ∧
+    (∀ b, (arith L).bin [124, 124] a b = one) := by
+  refine ⟨?_, ?_, ?_, ?_, ?_, ?_, ?_, ?_, ?_⟩
+  · rw [un_neg, isNaN_neg]; exact h
+  · rw [un_abs, abs_isNaN]; exact h
+  · rw [un_sqrt]; exact sqrt_nan h
+  · rw [un_floor]; exact integral_nan _ h
+  · rw [un_ceil]; exact integral_nan _ h
+  · rw [un_round]; exact integral_nan _ h
+  · rw [un_not, truthy_nan h]; rfl
+  · intro b
+    rw [bin_andand, un_not, un_not, truthy_nan h]
+    cases truthy b <;> decide +kernel
+  · intro b; rw [bin_oror, truthy_nan h]; rfl
+
+/-- **A decimal literal is `strconv.ParseFloat` of its text** (the modelled, correctly rounding one of
+    `Rare/Base/F64Str.lean`): a token that is not boxed, has no underscore and is not an integer for
+    `ParseInt(s, 0, 64)` denotes the constant `ParseFloat(s, 64)` whenever that succeeds. -/
+theorem literal_value_float (L : Libm) (v : Bytes) (x : F64) (hbx : isBoxed v = false)
+    (hu : v.contains 95 = false) (hi : parseIntLit v = none) (hp : F64.parseFloat v = some x) :
+    classify (arith L) v = some (.num x) := by
+  have hpl : (arith L).parseFloat v = .val x := by
+    show parseLit v = _
+    unfold parseLit; rw [hp]
+  cases v with
+  | nil => simp [F64.parseFloat, F64.special] at hp
+  | cons c r =>
+    simp only [classify, classifyE, hbx, Bool.false_eq_true, if_false, parseNum, hu, Bool.and_false, hi, hpl]
+
+/-- `0.1` is 0x3FB999999999999A, `1e22` is exact, `9007199254740993` is read by `ParseInt` (not by this
+    theorem) and rounds to even when converted. -/
+example : isBoxed (ascii "0.1") = false ∧ (ascii "0.1").contains 95 = false ∧ parseIntLit (ascii "0.1") = none ∧
+    F64.parseFloat (ascii "0.1") = some (ofBits 0x3FB999999999999A) ∧
+    F64.parseFloat (ascii "1e22") = some (ofBits 0x4480F0CF064DD592) ∧
+    evalF64 (ascii "9007199254740993") 0 = some 0x4340000000000000 := by decide +kernel
+
+/-- **What the driver computes is what the theorems talk about.**  The driver evaluates with the tainted
+    arithmetic `arithT` (`none` = the value went through a libm-backed function).  If a formula compiles
+    there it compiles to the same parse in `arith L` for EVERY behaviour `L` of those functions, and
+    every untainted value the driver reports is the value in `arith L`. -/
+theorem taint_sound (L : Libm) (s : Bytes) (t : Tree) (eT : Expr TV) (h : compile arithT s = .ok (t, eT))
+    (bT : Binding TV) (b : Binding F64)
+    (hk : ∀ k x, bT.getKey k = some x → x = b.getKey k) (hm : ∀ i x, bT.getMatch i = some x → x = b.getMatch i) :
+    ∃ e, compile (arith L) s = .ok (t, e) ∧ ∀ x, eT.eval arithT bT = some x → x = e.eval (arith L) b :=
+  taint_sound_aux L s t eT h bT b ⟨hk, hm⟩
+
+/-- `sin(x)+1` is tainted, `sqrt(x)+1`, `x^3` and `x^-2` are not (x = 2.0). -/
+example :
+    let bT : Binding TV := ⟨fun _ => some zeroP, fun _ => some (ofBits 0x4000000000000000)⟩
+    (match compile arithT (ascii "sin(x)+1"), compile arithT (ascii "sqrt(x)+1"), compile arithT (ascii "x^3 - x^-2"),
+           compile arithT (ascii "x^0.3") with
+     | .ok (_, e1), .ok (_, e2), .ok (_, e3), .ok (_, e4) =>
+       decide (e1.eval arithT bT = none) && decide (e2.eval arithT bT = some (ofBits 0x4003504F333F9DE6)) &&
+       decide (e3.eval arithT bT = some (ofBits 0x401F000000000000)) && decide (e4.eval arithT bT = none)
+     | _, _, _, _ => false) = true := by
+  decide +kernel
+
+end ieee
 
 end Rare.C19
